@@ -1438,9 +1438,10 @@ func checkFuseKeys(c *Ctx, rule string) {
 
 // checkPopulateWalk (C17): the upward walk of WithNodesFromEntry — found by the systematic mutation sweep to be
 // unconstrained by the parent-link dataflow alone:
-//   parentPath = path.Dir(nameWithPath) each round; the walk stops at the root exactly when parentPath is "", "." or "/";
-//   when the parent directory is not known yet a directory entry is made for parentPath, nameWithPath becomes parentPath
-//   and the walk continues; when it is known the walk stops.
+//
+//	parentPath = path.Dir(nameWithPath) each round; the walk stops at the root exactly when parentPath is "", "." or "/";
+//	when the parent directory is not known yet a directory entry is made for parentPath, nameWithPath becomes parentPath
+//	and the walk continues; when it is known the walk stops.
 func checkPopulateWalk(c *Ctx, rule string) {
 	p := c.P
 	f := p.Func("pkg/fuse.populate.WithNodesFromEntry")
